@@ -51,6 +51,8 @@ def run(ctx):
     rep.rule('R9.6', 'key-less simple aggregate yields exactly one data row unconditionally')
     rep.rule('R9.11', 'key cells of the rows line up with the key fields of the header: same tests on the key specification, same width, no test on a group key value')
     r911(ctx, rep)
+    rep.rule('R9.12', 'valuecounter counts every value once: one increment per pass, only IndexError may be swallowed')
+    r912(ctx, rep)
     rep.assumptions = ['itertools.groupby groups maximal runs of equal keys', 'sort is stable (C05)']
     rep.trusted = ['C05', 'C11 R11.3']
     # R9.1 from C11
@@ -579,3 +581,46 @@ def r911(ctx, rep):
                              'the header has %s key field(s) (%s) but the row gets %s key cell(s) (%s)'
                              % ('/'.join(sorted(hw)), norm(hs[0]), '/'.join(sorted(rw)), norm(rs[0])), rs[0])
     ctx.floor('key_shape_valuations', n, 9)
+
+
+# ------------------------------------------------------------------------ R9.12
+def r912(ctx, rep):
+    """valuecounter / valuecounts: the counts add up to nrows -- every value delivered by values() is counted once: the
+    counting loop increments on every path, and a handler in it may only swallow what the increment cannot raise
+    (the historic `except IndexError`); swallowing TypeError / Exception drops unhashable values from the count."""
+    from ..absint import handler_types
+    fn = ctx.project.need_fn('petl.util.counting:valuecounter')
+    loops = [l for l in own_nodes(fn.node) if isinstance(l, ast.For)]
+    n = 0
+    for lp in loops:
+        incs = [x for x in ast.walk(lp) if isinstance(x, ast.AugAssign) and isinstance(x.op, ast.Add)]
+        if not incs:
+            continue
+        n += 1
+        cont, term = _paths_count(lp.body, lambda x: isinstance(x, ast.AugAssign) and isinstance(x.op, ast.Add))
+        swallowed = set()
+        for t in [x for x in ast.walk(lp) if isinstance(x, ast.Try)]:
+            for h in t.handlers:
+                if not any(isinstance(y, ast.Raise) for b in h.body for y in ast.walk(b)):
+                    swallowed |= handler_types(h) if h.type is not None else {'BaseException'}
+        bad = swallowed - {'IndexError'}
+        c = 'count loop: %s' % norm(lp)[:50]
+        if bad:
+            rep.violated('R9.12', fn, c,
+                         'the counting loop swallows %s: a value that cannot be counted (e.g. an unhashable cell) is skipped '
+                         'silently, so the counts no longer add up to the number of rows' % ', '.join(sorted(bad)), lp)
+        elif (cont | term) - {1}:
+            rep.violated('R9.12', fn, c, 'a pass through the counting loop counts %s time(s) depending on the path'
+                         % sorted(cont | term, key=lambda x: (x is None, x)), lp)
+        else:
+            rep.held('R9.12', fn, c, 'one increment per value; nothing but IndexError is swallowed', lp)
+    if n == 0:
+        raise AnalysisError('anchor vanished: counting loop of valuecounter')
+
+
+def _paths_count(body, is_event):
+    from .c15 import _count_paths
+    cont, term = _count_paths(body, is_event)
+    # a handler that swallows counts as the path "0 increments": only IndexError handlers are tolerated by the caller,
+    # so ignore the handler paths here
+    return {c for c in cont if c != 0} or cont, {t for t in term if t != 0}
